@@ -354,6 +354,13 @@ def handwritten_leaves(F):
                 calls.setdefault(f["path"], set()).add(tgt)
             if x.get("k") == "path" and x["res"].get("rk") in ("Fn", "AssocFn") and x["res"].get("path") in F.fns_by_path:
                 calls.setdefault(f["path"], set()).add(x["res"]["path"])
+            # a visitor type handed to deserialize_seq / deserialize_map ..: its visit_* methods belong to this decoder
+            if x.get("k") in ("call", "mcall") and (c or "").startswith("serde_core::de::Deserializer::deserialize_"):
+                for t in ta:
+                    for g in F.fns:
+                        im = g.get("impl") or {}
+                        if im.get("trait") == "serde_core::de::Visitor" and g["name"].startswith("visit_") and (im["self_ty"].get("path") or im["self_ty"].get("s")) == t:
+                            calls.setdefault(f["path"], set()).add(g["path"])
 
     def closure(path):
         seen, todo = set(), [path]
